@@ -1,4 +1,5 @@
 import QuicProofs.Lemmas.Frame
+import QuicProofs.Lemmas.FrameWf
 /-
   C05 (frames): the property theorems. `WF` / `RestOk` and the helper lemmas live in
   `QuicProofs/Lemmas/Frame.lean`; the model is `QuicModel/Codec/Frame.lean`, the independent RFC
@@ -358,6 +359,23 @@ theorem dcTokens_tooMany_rejected (toks rest : List Nat) (hv' : V (toks.length /
 theorem stream_reencode_not_identity :
     decodeFrame [0x0c, 1, 0] = .ok (.stream 1 0 true false [], []) ∧
     encodeFrame (.stream 1 0 true false []) = [0x08, 1] := ⟨by rfl, by decide⟩
+
+/-- Every value the decoder returns is well-formed: `WF` is exactly the range of the decoder, and
+    a decoded frame can always be re-encoded (no `VarInt` underflow / missing-range panic in the
+    ACK encoder, cid length fits its `u8` prefix, …). -/
+theorem decoded_frame_wf {b r : List Nat} {f : Frame} (hb : BytesOk b) (hl : b.length < 2 ^ 62)
+    (h : decodeFrame b = .ok (f, r)) : WF f := decodeFrame_wf hb hl h
+
+theorem restOk_nil (f : Frame) : RestOk f [] := by
+  unfold RestOk
+  split <;> simp
+
+/-- `decode (encode (decode b)) = decode b` on values, for every input (the re-encoded bytes may
+    differ from `b`: `stream_reencode_not_identity`) -/
+theorem reencode_roundtrip {b r : List Nat} {f : Frame} (hb : BytesOk b) (hl : b.length < 2 ^ 62)
+    (h : decodeFrame b = .ok (f, r)) : decodeFrame (encodeFrame f) = .ok (f, []) := by
+  have := frame_roundtrip f [] (decodeFrame_wf hb hl h) (restOk_nil f)
+  simpa using this
 
 /-! ## totality: progress and termination of the frame-sequence loop -/
 
